@@ -718,3 +718,151 @@ Proof.
     exact (seq_fix_dir sc Em).
   - exact (failed_creation_not_openable_seq sc).
 Qed.
+
+(* ------------------------------------------------------------------ call options *)
+(* the progress display hands every chunk on, in order, and stops the way its source stops *)
+Lemma indicator_loop_items xs : forall i, fst (indicator_loop xs i) = xs.
+Proof.
+  induction xs as [|x r IH]; intros i; simpl; [reflexivity|].
+  specialize (IH (S i)). destruct (indicator_loop r (S i)) as [ys sh]. simpl in *. congruence.
+Qed.
+
+Lemma indicator_loop_shown xs : forall i, snd (indicator_loop xs i) = seq (S i) (length xs).
+Proof.
+  induction xs as [|x r IH]; intros i; simpl; [reflexivity|].
+  specialize (IH (S i)). destruct (indicator_loop r (S i)) as [ys sh]. simpl in *. congruence.
+Qed.
+
+Theorem indicator_transparent s : fst (indicator s) = s.
+Proof.
+  unfold indicator. pose proof (indicator_loop_items (fst s) 0) as H.
+  destruct (indicator_loop (fst s) 0) as [ys sh]. simpl in *. subst ys. destruct s; reflexivity.
+Qed.
+
+(* what it writes: steps 1..n, and the closing line only when the source ended normally *)
+Theorem indicator_display xs e :
+  snd (indicator (xs, e)) = seq 1 (length xs) ++ match e with SEnd => [length xs] | SErr => [] end.
+Proof.
+  unfold indicator. simpl fst. simpl snd.
+  pose proof (indicator_loop_items xs 0) as H1. pose proof (indicator_loop_shown xs 0) as H2.
+  destruct (indicator_loop xs 0) as [ys sh]. simpl in *. subst. destruct e; [reflexivity|].
+  rewrite app_nil_r. reflexivity.
+Qed.
+
+Lemma indicator_keeps_items : keeps_items (fun s => fst (indicator s)).
+Proof. intros s. rewrite indicator_transparent. reflexivity. Qed.
+
+Lemma swallowing_keeps_items total : keeps_items (fun s => fst (indicator_return_in_finally total s)).
+Proof.
+  intros s. unfold indicator_return_in_finally. pose proof (indicator_loop_items (fst s) 0) as H.
+  destruct (indicator_loop (fst s) 0) as [ys sh]. simpl in *. exact H.
+Qed.
+
+Lemma through_transparent w sc : (forall s, w s = s) -> through w sc = sc.
+Proof.
+  intros H. unfold through. destruct (reader_fault_at sc) eqn:E; [|reflexivity].
+  rewrite H. unfold reader_stream. rewrite E. reflexivity.
+Qed.
+
+(* with the progress display on, the pipeline executes the very same scenario: every theorem of this file
+   holds unchanged, in both modes, for the current and for the repaired algorithm *)
+Theorem progress_irrelevant sc : with_progress sc = sc.
+Proof. apply through_transparent. intros s. apply indicator_transparent. Qed.
+
+Theorem options_do_not_matter v sc :
+  seq_run v (with_progress sc) = seq_run v sc /\
+  (forall s, reach v (with_progress sc) s <-> reach v sc s) /\
+  (forall pol, run v (with_progress sc) pol = run v sc pol).
+Proof. rewrite progress_irrelevant. repeat split; auto. Qed.
+
+(* a wrapper that lets the error through is harmless whatever else it does with the display *)
+Theorem error_preserving_wrapper_harmless w sc :
+  (forall s, snd (w s) = snd s) -> through w sc = sc.
+Proof.
+  intros H. unfold through. destruct (reader_fault_at sc) eqn:E; [|reflexivity].
+  specialize (H (reader_stream sc)). destruct (w (reader_stream sc)) as [ys e]. simpl in H.
+  unfold reader_stream in H. rewrite E in H. simpl in H. subst e. reflexivity.
+Qed.
+
+(* ---- the display that leaves its `finally` block with `return` *)
+Lemma reader_fault_mfault sc c : reader_fault_at sc = Some c -> mfault sc = Some c.
+Proof.
+  unfold reader_fault_at, mfault. destruct (flt sc) as [f|]; [|discriminate].
+  destruct (where_ f); try discriminate. auto.
+Qed.
+
+Lemma reader_fault_lt sc c : reader_fault_at sc = Some c -> c < length (input sc).
+Proof. intros H. apply mfault_lt. apply reader_fault_mfault. exact H. Qed.
+
+Lemma swallowing_scen sc c : reader_fault_at sc = Some c ->
+  with_swallowing_progress sc =
+  {| input := firstn c (input sc); flt := None; pre := pre sc; overwrite := overwrite sc;
+     early := early sc; empty_centre := empty_centre sc |}.
+Proof.
+  intros H. pose proof (reader_fault_lt sc c H) as L.
+  unfold with_swallowing_progress, through. rewrite H. unfold reader_stream. rewrite H.
+  unfold indicator_return_in_finally. simpl fst. simpl snd.
+  pose proof (indicator_loop_items (firstn c (input sc)) 0) as H1.
+  destruct (indicator_loop (firstn c (input sc)) 0) as [ys sh]. simpl in H1. subst ys. simpl fst.
+  assert (E : length (firstn c (input sc)) <? length (input sc) = true).
+  { apply Nat.ltb_lt. rewrite firstn_length. lia. }
+  rewrite E. reflexivity.
+Qed.
+
+Lemma swallowing_initok sc c : reader_fault_at sc = Some c ->
+  initok (with_swallowing_progress sc) = initok sc.
+Proof.
+  intros H. rewrite (swallowing_scen sc c H). unfold initok, init_dir, wfault_init. simpl.
+  unfold reader_fault_at in H. destruct (flt sc) as [f|]; [|discriminate].
+  destruct (where_ f); try discriminate. reflexivity.
+Qed.
+
+(* A reader fault at chunk c, nothing else wrong.  The call has to raise; behind the swallowing display the
+   repaired pipeline, in sequential mode and in every interleaving of the parallel mode, RETURNS a catalog of
+   the first c chunks, and that return violates the statement whatever the data are compared with. *)
+Theorem swallowing_display_returns_truncated sc c :
+  reader_fault_at sc = Some c -> early sc = false -> empty_centre sc = false -> initok sc = true ->
+  must_raise sc = true /\
+  fst (seq_run v_fix (with_swallowing_progress sc)) = Return (firstn c (input sc), true) /\
+  (forall s, reach v_fix (with_swallowing_progress sc) s -> final s = true ->
+             outcome_of s = Return (firstn c (input sc), true)) /\
+  (forall d untouched opens, spec_ok sc (model_obs sc (Return d)) untouched opens = false).
+Proof.
+  intros H Ee Ec Hi.
+  assert (Hm : must_raise sc = true).
+  { unfold must_raise. rewrite (reader_fault_mfault sc c H). simpl. rewrite Bool.orb_true_r. reflexivity. }
+  assert (Hn : must_raise (with_swallowing_progress sc) = false).
+  { apply must_raise_false_iff. rewrite (swallowing_initok sc c H). rewrite (swallowing_scen sc c H).
+    simpl. repeat split; auto. }
+  assert (Hin : input (with_swallowing_progress sc) = firstn c (input sc)).
+  { rewrite (swallowing_scen sc c H). reflexivity. }
+  split; [exact Hm|]. split; [|split].
+  - rewrite seq_fix_outcome, Hn, Hin. reflexivity.
+  - intros s R F. rewrite (seq_par_same_outcome _ s R F), seq_fix_outcome, Hn, Hin. reflexivity.
+  - intros d u o. unfold spec_ok.
+    assert (Hr : cl_return_exact sc (model_obs sc (Return d)) = false)
+      by (unfold cl_return_exact; simpl; rewrite Hm; reflexivity).
+    rewrite Hr. destruct (cl_no_hang (model_obs sc (Return d))); reflexivity.
+Qed.
+
+(* the truncated catalog is not the input as soon as one chunk is missing *)
+Lemma firstn_neq_self (l : list nat) c : c < length l -> firstn c l <> l.
+Proof. intros L E. apply (f_equal (@length nat)) in E. rewrite firstn_length in E. lia. Qed.
+
+Definition sc_swallow : scen := mk_scen 3 (mk_fault InReader 1 NonFinite) TAbsent false false false.
+Theorem swallowing_display_refuted : exists sc,
+  (forall s, reach v_fix sc s -> final s = true -> outcome_of s = Raise) /\
+  fst (seq_run v_fix sc) = Raise /\
+  (forall s, reach v_fix (with_swallowing_progress sc) s -> final s = true ->
+             exists d, outcome_of s = Return (d, true) /\ d <> input sc) /\
+  (exists d, fst (seq_run v_fix (with_swallowing_progress sc)) = Return (d, true) /\ d <> input sc).
+Proof.
+  exists sc_swallow.
+  assert (H : reader_fault_at sc_swallow = Some 1) by reflexivity.
+  destruct (swallowing_display_returns_truncated sc_swallow 1 H eq_refl eq_refl eq_refl) as (Hm & Hs & Hp & _).
+  split; [|split; [|split]].
+  - intros s R F. destruct (returns_iff_allowed _ s R F) as [[_ E]|[E _]]; [congruence|exact E].
+  - rewrite seq_fix_outcome, Hm. reflexivity.
+  - intros s R F. eexists. split; [exact (Hp s R F)|]. apply firstn_neq_self. simpl. lia.
+  - eexists. split; [exact Hs|]. apply firstn_neq_self. simpl. lia.
+Qed.
